@@ -10,7 +10,8 @@ from wire import feats_to_json
 
 TABLES = []
 LAKE_TARGETS = ["Moclo.Props.C10"]
-THEOREMS = ["Moclo.C10." + t for t in ["deref_points_to_reference", "cites_carried", "product_references", "inputs_citations_unchanged"]]
+THEOREMS = ["Moclo.C10." + t for t in ["deref_points_to_reference", "cites_carried", "product_references", "inputs_citations_unchanged",
+                                           "product_citations_read_back", "product_citations_resolve"]]
 RULE = ("well-formed assemblies whose inputs carry reference lists of length 0-4 (references shared between inputs "
         "or unique to one, an input listing equal references twice), features citing none, one or several of them, "
         "inside and outside the retained fragments; two consecutive calls. non-trivial = the product carries at "
